@@ -210,7 +210,12 @@ fn supervise(def: &props::PropDef, args: &[String], tier: Tier, seed: u64, is_re
         .expect("spawn worker");
     let rc = match st.code() {
         Some(c @ 0..=2) => c,
-        _ => {
+        Some(c) => {
+            // e.g. 101: a panic on the harness's own main thread -- a harness defect, not a finding
+            eprintln!("INCONCLUSIVE: worker exited with status {c} (harness error; rerun with VERIF_PANIC_VERBOSE=1 VVERIF_CHILD=1)");
+            2
+        }
+        None => {
             let mut ctx = Ctx::new(def.id, tier, seed, def.level);
             describe_only(def, &mut ctx);
             report_crash(def.id, &infl, &format!("{st}"), &mut ctx);
